@@ -40,6 +40,10 @@ FLAG_NAMES = ["FITERRSMALL", "FITERR", "FIXED2PSF", "FIXEDCIRCULAR",
 
 
 MUTANTS = [
+    ("a SourceFinder method memoised", "AegeanTools/source_finder.py",
+     "    def _load_aux_image(self, image, auxfile):",
+     "    @lru_cache(maxsize=None)\n    def _load_aux_image(self, image, auxfile):",
+     "C03-R16"),
     ("island cut-out keeps the pixels of other islands",
      "AegeanTools/source_finder.py",
      "                          (l[xmin:xmax, ymin:ymax] != i + 1)",
@@ -144,6 +148,26 @@ def run(ctx):
     r14_flags_reach(ctx, prog)
     from .c01 import isolation_rule
     isolation_rule(ctx, prog, "C03-R15")
+    from ..core import shared_state
+    ctx.rule("C03-R16", "reproducibility within one process: every "
+             "SourceFinder has its own catalogue and data -- no method "
+             "appends to / stores into a container defined at class or "
+             "module level (and not re-bound per instance in __init__), and "
+             "nothing is memoised")
+    n16 = 0
+    for q, f16 in sorted(prog.functions.items()):
+        if f16.cls != "SourceFinder" or not f16.module.endswith(
+                "source_finder"):
+            continue
+        n16 += 1
+        st = shared_state(prog, f16)
+        ctx.check("C03-R16", f16, "%s keeps no state shared between "
+                  "instances" % f16.short, not st,
+                  "%s: the second run in a process also reports the rows of "
+                  "the first (duplicate (island, source) pairs and uuids)" %
+                  "; ".join(d for _, d in st[:3]),
+                  node=st[0][0] if st else f16.node)
+    ctx.floor("C03-R16", n16, 8, "methods of SourceFinder")
     # the strings agree with the decimal coordinates: formatter rules shared
     # with C17 (quantise before splitting, hours mod 24 after rounding)
     from .c17 import sexagesimal
